@@ -440,15 +440,32 @@ func (e *Exec) external(fr *Frame, st State, fn *ssa.Function, args []Val, pos t
 	}
 	e.assumed["assumed contract: "+name] = true
 	switch name {
-	case "errors.New", "fmt.Errorf":
+	case "errors.New":
 		s, v := e.freshError(st, "new")
 		return []Outcome{{st: s, ret: v}}
-	case "fmt.Sprintf", "fmt.Sprint":
-		s, v := e.freshString(st, "sprintf")
-		if name == "fmt.Sprintf" && len(args) == 2 {
-			s = e.textSprintf(s, v, args[0], args[1])
+	case "fmt.Errorf":
+		var outs []Outcome
+		for _, s0 := range e.fmtCallsMethods(fr, st, args[0], args[1], true, pos) {
+			s, v := e.freshError(s0, "new")
+			outs = append(outs, Outcome{st: s, ret: v})
 		}
-		return []Outcome{{st: s, ret: v}}
+		return outs
+	case "fmt.Sprintf", "fmt.Sprint":
+		var outs []Outcome
+		var pre []State
+		if name == "fmt.Sprintf" {
+			pre = e.fmtCallsMethods(fr, st, args[0], args[1], true, pos)
+		} else {
+			pre = e.fmtCallsMethods(fr, st, nil, args[0], false, pos)
+		}
+		for _, s0 := range pre {
+			s, v := e.freshString(s0, "sprintf")
+			if name == "fmt.Sprintf" && len(args) == 2 {
+				s = e.textSprintf(s, v, args[0], args[1])
+			}
+			outs = append(outs, Outcome{st: s, ret: v})
+		}
+		return outs
 	case "strings.Split":
 		if s2, v, ok := e.textSplit(st, args[0], args[1]); ok {
 			return []Outcome{{st: s2, ret: v}}
@@ -548,4 +565,84 @@ func (e *Exec) peelIte(st State, t *Term) *Term {
 		}
 	}
 	return t
+}
+
+// fmtCallsMethods: fmt calls the Error() or String() method of an operand printed with a verb
+// that is valid for strings (%v %s %q %x %X). For operands whose dynamic type is a type of this
+// module the method is executed (inlined, or through its contract); operands of unknown
+// dynamic type are assumed to format without effect. Returns the states after those calls.
+func (e *Exec) fmtCallsMethods(fr *Frame, st State, format Val, argv Val, hasFormat bool, pos token.Pos) []State {
+	c := e.c
+	if len(argv) < 2 || !argv[1].IsConst() || argv[1].C > 16 {
+		return []State{st}
+	}
+	n := int(argv[1].C)
+	verbs := make([]byte, n)
+	for i := range verbs {
+		verbs[i] = 'v'
+	}
+	if hasFormat {
+		if f, ok := e.constOfString(format); ok {
+			var vs []byte
+			for i := 0; i < len(f); i++ {
+				if f[i] != '%' {
+					continue
+				}
+				i++
+				for i < len(f) && strings.IndexByte("+-# 0123456789.*[]", f[i]) >= 0 {
+					i++
+				}
+				if i < len(f) && f[i] != '%' {
+					vs = append(vs, f[i])
+				}
+			}
+			if len(vs) == n {
+				verbs = vs
+			}
+		}
+	}
+	states := []State{st}
+	for k := 0; k < n; k++ {
+		if strings.IndexByte("vsqxX", verbs[k]) < 0 {
+			continue
+		}
+		var next []State
+		for _, s0 := range states {
+			tag := e.peelIte(s0, e.read(s0.h[3], c.Add(argv[0], c.Const(64, uint64(2*k)))))
+			word := e.read(s0.h[3], c.Add(argv[0], c.Const(64, uint64(2*k+1))))
+			if !tag.IsConst() || tag.C == 0 {
+				e.assumed["fmt: String()/Error() of operands whose dynamic type is not known statically are assumed to return"] = true
+				next = append(next, s0)
+				continue
+			}
+			T := e.P.typeOfTag(tag.C)
+			var m *ssa.Function
+			if T != nil {
+				ms := e.P.prog.MethodSets.MethodSet(T)
+				for _, name := range []string{"Error", "String"} {
+					if sel := ms.Lookup(nil, name); sel != nil {
+						if sig, ok := sel.Type().(*types.Signature); ok && sig.Params().Len() == 0 && sig.Results().Len() == 1 {
+							m = e.P.prog.MethodValue(sel)
+							break
+						}
+					}
+				}
+			}
+			if m == nil || !e.P.isRepoFunc(m) && !(m.Synthetic != "" && len(m.Blocks) > 0) {
+				next = append(next, s0)
+				continue
+			}
+			var recv Val
+			if pointerShaped(T) {
+				recv = Val{word}
+			} else {
+				recv = e.loadFrom(s0.h, word, T)
+			}
+			for _, o := range e.callStatic(fr, s0, m, []Val{recv}, nil, pos) {
+				next = append(next, o.st)
+			}
+		}
+		states = next
+	}
+	return states
 }
